@@ -123,13 +123,16 @@ def run_case(case):
         desc_cfg = {'patterns': pats, 'regex': regex}
     elif fam == 'rename_fields':
         mapping = []
-        kind = rng.choice(['lit', 'noregex', 'backref', 'alt', 'two', 'swap'])
+        kind = rng.choice(['lit', 'noregex', 'backref', 'alt', 'two', 'swap', 'noregex_backslash'])
         covc['rename/' + kind] = 1
         n0 = rng.choice(names)
         if kind == 'lit':
             mapping = [(lit(n0), 'NEW')]
         elif kind == 'noregex':
             mapping, regex = [(n0, 'NEW')], False
+        elif kind == 'noregex_backslash':
+            # literal mode: the new name is a name, not a replacement template
+            mapping, regex = [(n0, rng.choice(['price\\net', 'q\\\\z', 'a\\1', 'c:\\data\\w', 'x\\g<0>']))], False
         elif kind == 'backref':
             mapping = [('(' + lit(n0[0]) + ')(.*)', r'\2_\1')]
         elif kind == 'alt':
